@@ -1,7 +1,228 @@
-(* C13 — TT-ANOVA.  Only statements, each closed by [exact]. *)
-From Coq Require Import List Arith Lia PeanoNat ZArith.
-From TV Require Import Num.Ops Model.Anova Proofs.AnovaP.
+(* C13 — TT-ANOVA (anova.py, anova_func.py, act_many.add_many).  Only statements, each closed by [exact].
+   Carrier: any [ops T] whose operations form a commutative ring ([rng K]); the statistics need in addition the two
+   facts about a field of characteristic 0 that are spelled out as hypotheses (x/b*b = x for b <> 0; n+1 <> 0).
+   Multi-indices [idx] are positions in the sorted observed domain ([domain I], np.unique per column). *)
+From Coq Require Import List Arith Lia PeanoNat ZArith QArith Qcanon Sorted.
+From TV Require Import Num.Ops Lin.Tab Lin.BigSum Lin.Mat TT.Chain Model.ActOne Model.Anova Model.AnovaFunc
+  Proofs.AnovaP Proofs.Anova2P Proofs.AnovaFuncP Proofs.AnovaTopP Proofs.AnovaExP.
 Import ListNotations.
+Local Open Scope nat_scope.
 
-Example C13_pairs_example : pairs 3 = [(0, 1); (0, 2); (1, 2)].
-Proof. exact pairs_example. Qed.
+(* ---------- pair_num_to_num ---------- *)
+(* the pairs i<j<d in the loop order of build_2 / cores_2 are numbered bijectively onto 0 .. d(d-1)/2-1, all d *)
+Theorem C13_pair_num_bijection : forall d,
+  2 * length (pairs d) = d * (d - 1) /\
+  (forall i j, i < j < d -> pair_num_nat d i j < length (pairs d) /\ nth (pair_num_nat d i j) (pairs d) (0, 0) = (i, j)) /\
+  (forall n, n < length (pairs d) -> exists i j, i < j < d /\ pair_num_nat d i j = n /\ nth n (pairs d) (0, 0) = (i, j)).
+Proof. exact pair_num_bijection. Qed.
+Theorem C13_pair_num_sym : forall d x1 x2, pair_num d x1 x2 = pair_num d x2 x1.
+Proof. exact pair_num_sym. Qed.
+Theorem C13_pair_num_diag : forall d x, pair_num d x x = Err AssertionError.
+Proof. exact pair_num_diag. Qed.
+
+(* ---------- the statistics: ANOVA.build ---------- *)
+(* domain = sorted distinct observed values per mode; f0 = sample mean; f1[k][x] + f0 = mean of the samples whose
+   k-th index is x (that set is never empty) *)
+Theorem C13_anova_stats : forall {T} (K : ops T), rng K ->
+  (forall a b, b <> o0 K -> omul K (odiv K a b) b = a) -> (forall n, natT K (S n) <> o0 K) ->
+  forall I y order (M : anova T), ANOVA K I y order = Ok M -> y <> [] -> length I = length y ->
+  a_dom M = domain I /\ a_d M = dimI I /\
+  (forall k, k < dimI I -> Sorted Z.lt (nth k (a_dom M) []) /\
+                           forall x, In x (nth k (a_dom M) []) <-> In x (column k I)) /\
+  omul K (a_f0 M) (natT K (length y)) = lsum K y /\
+  map (@length T) (a_f1 M) = shapes (a_dom M) /\
+  forall k pos, k < dimI I -> pos < length (nth k (a_dom M) []) ->
+    let s := sel (at_ k (nth pos (nth k (a_dom M) []) 0%Z)) I y in
+    s <> [] /\ omul K (oadd K (nth pos (nth k (a_f1 M) []) (o0 K)) (a_f0 M)) (natT K (length s)) = lsum K s.
+Proof. exact @anova_stats. Qed.
+
+(* order 2: the matrix of the pair (k1,k2), stored at number pair_num_to_num(k1,k2), holds 0 where no sample has both
+   index values and otherwise the conditional mean minus f0 minus the two univariate terms *)
+Theorem C13_anova_stats2 : forall {T} (K : ops T), rng K ->
+  (forall a b, b <> o0 K -> omul K (odiv K a b) b = a) -> (forall n, natT K (S n) <> o0 K) ->
+  forall I y (M : anova T) k1 k2 a b, ANOVA K I y 2 = Ok M ->
+  k1 < k2 < dimI I -> a < length (nth k1 (a_dom M) []) -> b < length (nth k2 (a_dom M) []) ->
+  let A := nth (pair_num_nat (a_d M) k1 k2) (a_f2 M) (mk_mat O O []) in
+  let s := sel (fun row => at_ k1 (nth a (nth k1 (a_dom M) []) 0%Z) row && at_ k2 (nth b (nth k2 (a_dom M) []) 0%Z) row) I y in
+  length (a_f2 M) = length (pairs (dimI I)) /\
+  mr A = length (nth k1 (a_dom M) []) /\ mc A = length (nth k2 (a_dom M) []) /\
+  (s = [] -> mget K A a b = o0 K) /\
+  (s <> [] -> omul K (oadd K (oadd K (oadd K (mget K A a b) (a_f0 M)) (nth a (nth k1 (a_f1 M) []) (o0 K)))
+                             (nth b (nth k2 (a_f1 M) []) (o0 K))) (natT K (length s)) = lsum K s).
+Proof. exact @anova_stats2. Qed.
+
+(* ANOVA.calc(x) on index values = dictionary lookups (KeyError outside the domain) followed by calc_pos *)
+Theorem C13_calc_spec : forall {T} (K : ops T) (M : anova T) x v, calc K M x = Ok v ->
+  exists pos, length pos = length x /\
+    (forall k, k < length x -> nth k pos O < length (nth k (a_dom M) []) /\
+                               nth (nth k pos O) (nth k (a_dom M) []) 0%Z = nth k x 0%Z) /\
+    v = calc_pos K M pos.
+Proof. exact @calc_spec. Qed.
+
+(* ---------- order 1: teneva.anova(I, y, r, order=1, noise=0) ---------- *)
+(* every d >= 2, every r >= 2, every sample set: the result has the observed mode sizes, every TT-rank equal to r,
+   and evaluates at every multi-index of the observed domain to f0 + sum_k f1[k][x_k] (= ANOVA.calc) *)
+Theorem C13_anova_order1 : forall {T} (K : ops T), rng K ->
+  forall I y r g skel trunc (M : anova T), ANOVA K I y 1 = Ok M -> 2 <= r -> 2 <= dimI I ->
+  let Y := cores_1 K M r (o0 K) g in
+  anova_tt K I y r 1 (o0 K) g skel trunc = Ok Y /\
+  shape Y = shapes (domain I) /\
+  ranks Y = 1 :: repeat r (dimI I - 1) ++ [1] /\
+  forall idx, length idx = dimI I -> (forall k, k < dimI I -> nth k idx O < nth k (shapes (domain I)) O) ->
+    wf 1 Y idx /\
+    get K Y idx = oadd K (a_f0 M) (bsum K (dimI I) (fun k => nth (nth k idx O) (nth k (a_f1 M) []) (o0 K))) /\
+    get K Y idx = calc_pos K M idx.
+Proof. exact @anova_order1. Qed.
+
+(* with noise: mode sizes and TT-ranks are the same for every noise level and every generator *)
+Theorem C13_cores_1_shape : forall {T} (K : ops T) (M : anova T) r noise g, 2 <= a_d M -> length (a_f1 M) = a_d M ->
+  shape (cores_1 K M r noise g) = map (@length T) (a_f1 M).
+Proof. exact @cores_1_shape. Qed.
+Theorem C13_cores_1_ranks : forall {T} (K : ops T) (M : anova T) r noise g, 2 <= a_d M ->
+  ranks (cores_1 K M r noise g) = 1 :: repeat r (a_d M - 1) ++ [1].
+Proof. exact @cores_1_ranks. Qed.
+(* partial ("up to the requested noise"): core by core the noisy entries are the noise-free ones on the pattern and
+   noise-free + noise * (normal draw) elsewhere; NO bound on the induced change of the tensor entries is proved *)
+Theorem C13_cores_1_noise_partial : forall {T} (K : ops T), rng K ->
+  forall (M : anova T) r noise g k a i b, 2 <= a_d M -> k < a_d M ->
+  let G := nth k (cores_1 K M r noise g) (core_ones K O) in
+  let G0 := nth k (cores_1 K M r (o0 K) g) (core_ones K O) in
+  cr1 G = cr1 G0 /\ cn G = cn G0 /\ cr2 G = cr2 G0 /\
+  (a < cr1 G -> i < cn G -> b < cr2 G ->
+   cget K G a i b = oadd K (cget K G0 a i b)
+                      (if in_pattern (a_d M) k a b then o0 K else omul K noise (g (gcall (a_d M) k) a i b))).
+Proof. exact @cores_1_noise_entries. Qed.
+
+(* rejected arguments *)
+Theorem C13_anova_bad_order : forall {T} (K : ops T) I y r order noise g skel trunc, order <> 1 -> order <> 2 ->
+  anova_tt K I y r order noise g skel trunc = Err ValueError.
+Proof. exact @anova_bad_order. Qed.
+Theorem C13_anova_bad_rank : forall {T} (K : ops T) I y r order noise g skel trunc, (order = 1 \/ order = 2) -> r < 2 ->
+  anova_tt K I y r order noise g skel trunc = Err IndexError.
+Proof. exact @anova_bad_rank. Qed.
+
+(* ---------- order 2 ---------- *)
+(* _second_order_2_tt(A, i, j, shapes) denotes A[x_i, x_j] at every multi-index, for every skeleton routine that
+   returns an exact factorisation U V = A (identity cores between the two positions, ones outside) *)
+Theorem C13_second_order_get : forall {T} (K : ops T), rng K ->
+  forall (skel : mat T -> mat T * mat T) A i j shp idx, i < j < length shp -> length idx = length shp ->
+  (forall k, k < length shp -> nth k idx O < nth k shp O) -> nth i shp O = mr A -> nth j shp O = mc A ->
+  (let (U, V) := skel A in mc U = mr V /\ meq K (mmul K U V) A) ->
+  get K (second_order_2_tt K skel A i j shp) idx = mget K A (nth i idx O) (nth j idx O).
+Proof. exact @second_order_get. Qed.
+
+(* act_two.add on two TT-tensors of equal shape, d >= 2 *)
+Theorem C13_add_get : forall {T} (K : ops T), rng K -> forall Y1 Y2 idx, 2 <= length Y1 -> wf 1 Y1 idx -> wf 1 Y2 idx ->
+  shape Y1 = shape Y2 ->
+  get K (add K Y1 Y2) idx = oadd K (get K Y1 idx) (get K Y2 idx) /\ wf 1 (add K Y1 Y2) idx /\
+  shape (add K Y1 Y2) = shape Y1.
+Proof. exact @add_get. Qed.
+
+(* act_many.add_many: the entry of the result is the sum of the entries plus the changes err k made by the truncate
+   calls (at most one per 15 summands plus the final one) *)
+Theorem C13_add_many_get : forall {T} (K : ops T), rng K ->
+  forall (trunc : nat -> list (core T) -> list (core T)) idx shp (err : nat -> T),
+  (forall k Y, okY idx shp Y -> okY idx shp (trunc k Y) /\ get K (trunc k Y) idx = oadd K (get K Y idx) (err k)) ->
+  2 <= length shp -> forall Y0 rest, okY idx shp Y0 -> Forall (okY idx shp) rest ->
+  exists ncalls, 1 <= ncalls <= S (length rest) /\ okY idx shp (add_many K trunc (Y0 :: rest)) /\
+    get K (add_many K trunc (Y0 :: rest)) idx
+    = oadd K (oadd K (get K Y0 idx) (lsum K (map (fun Yc => get K Yc idx) rest))) (bsum K ncalls err).
+Proof. exact @add_many_get. Qed.
+
+(* partial: ANOVA(order=2).cores(r, noise=0) = f0 + sum f1 + sum of the pair terms (= calc_pos) + the sum of the
+   entry changes made by the truncate calls of add_many.  Missing for the property's clause: the size of those
+   changes and the rank cap of the result are the contract of truncate (property C02), they are not derived here *)
+Theorem C13_anova_order2_partial : forall {T} (K : ops T), rng K ->
+  forall skel : nat -> mat T -> mat T * mat T,
+  (forall num A, let (U, V) := skel num A in mc U = mr V /\ meq K (mmul K U V) A) ->
+  forall I y (M : anova T) r g trunc idx (err : nat -> T),
+  ANOVA K I y 2 = Ok M -> 2 <= r -> 2 <= dimI I -> length idx = dimI I ->
+  (forall k, k < dimI I -> nth k idx O < nth k (shapes (domain I)) O) ->
+  (forall k Y, okY idx (shapes (domain I)) Y ->
+               okY idx (shapes (domain I)) (trunc k Y) /\ get K (trunc k Y) idx = oadd K (get K Y idx) (err k)) ->
+  exists Y ncalls, cores K M r (o0 K) false g skel trunc = Ok Y /\
+     1 <= ncalls <= S (length (pairs (dimI I))) /\ wf 1 Y idx /\ shape Y = shapes (domain I) /\
+     get K Y idx = oadd K (calc_pos K M idx) (bsum K ncalls err).
+Proof. exact @anova_order2_get_partial. Qed.
+
+(* ---------- anova_func ---------- *)
+(* the coefficient tensor before rounding: c0 at index 0, cf_i[p] at (p+1) e_i, zero elsewhere (as a sum of indicator
+   terms), for every (sign, root) routine with s * w^d = v *)
+Theorem C13_cores_pre_get : forall {T} (K : ops T), rng K -> forall (split : T -> T * T) d,
+  (forall v, let (s, w) := split v in omul K s (tpow K w d) = v) -> 2 <= d ->
+  forall n c0 cfs jdx, length jdx = d -> (forall k, k < d -> nth k jdx O < n) ->
+  get K (cores_pre K split d n c0 cfs) jdx
+  = oadd K (if list_eq_dec Nat.eq_dec jdx (repeat O d) then c0 else o0 K)
+      (lsum K (map (fun t : nat * nat * T => let '(i, p, v) := t in
+                      if list_eq_dec Nat.eq_dec jdx (unit_idx d i p) then v else o0 K) (terms K cfs)))
+  /\ okY jdx (repeat n d) (cores_pre K split d n c0 cfs).
+Proof. exact @cores_pre_get. Qed.
+
+(* its interpolant in any basis with B_0 = 1 is c0 + sum_i sum_p cf_i[p] B_{p+1}(x_i) *)
+Theorem C13_anova_func_interp : forall {T} (K : ops T), rng K -> forall (split : T -> T * T) d,
+  (forall v, let (s, w) := split v in omul K s (tpow K w d) = v) -> 2 <= d ->
+  forall (B : nat -> T -> T) n c0 cfs x, (forall t, B O t = o1 K) -> length cfs = d ->
+  (forall i, i < d -> length (nth i cfs []) < n) ->
+  msum K (repeat n d) (fun jdx => omul K (get K (cores_pre K split d n c0 cfs) jdx)
+                                         (prodn K d (fun k => B (nth k jdx O) (nth k x (o0 K)))))
+  = oadd K c0 (bsum K d (fun i => bsum K (length (nth i cfs []))
+                                    (fun p => omul K (nth p (nth i cfs []) (o0 K)) (B (S p) (nth i x (o0 K)))))).
+Proof. exact @anova_func_interp. Qed.
+
+(* the systems handed to the solver are the ridge normal equations in the Chebyshev basis (recurrence chebT) for the
+   centred values: a solver that solves N x = rhs returns the ridge fit *)
+Theorem C13_anova_func_normal_eqs : forall {T} (K : ops T),
+  forall X y n a b lamb (solve : nat -> mat T -> list T -> list T) i, i < dimX X -> length X = length y ->
+  let sys := nth i (systems K X y n a b lamb) (mk_mat O O [], []) in
+  let cf := solve i (fst sys) (snd sys) in
+  let xd := xcol K i (scaled K X a b) in
+  let ybar := mean K y in
+  (forall p, p < n -> bsum K n (fun q => omul K (mget K (fst sys) p q) (nth q cf (o0 K))) = nth p (snd sys) (o0 K)) ->
+  forall p, p < n ->
+    bsum K n (fun q => omul K (oadd K (bsum K (length xd) (fun s => omul K (chebT K p (nth s xd (o0 K)))
+                                                                        (chebT K q (nth s xd (o0 K)))))
+                                     (omul K lamb (if p =? q then o1 K else o0 K)))
+                              (nth q cf (o0 K)))
+    = bsum K (length xd) (fun s => omul K (chebT K p (nth s xd (o0 K))) (osub K (nth s y (o0 K)) ybar)).
+Proof. exact @anova_func_normal_eqs. Qed.
+
+(* anova_func(X, y, n, a, b, lamb, e=None): the Chebyshev interpolant of the returned tensor equals the fitted
+   constant plus the sum of the fitted one-dimensional expansions, all d >= 2, n >= 1 *)
+Theorem C13_anova_func_denote : forall {T} (K : ops T), rng K -> forall (split : T -> T * T) X y n a b lamb solve x,
+  2 <= dimX X -> 1 <= n -> (forall i N rhs, length (solve i N rhs) = n) ->
+  (forall v, let (s, w) := split v in omul K s (tpow K w (dimX X)) = v) ->
+  let d := dimX X in
+  let c0 := fst (coeffs K X y n a b lamb solve) in let cfs := snd (coeffs K X y n a b lamb solve) in
+  msum K (repeat n d) (fun jdx => omul K (get K (anova_func K X y n a b lamb solve split None) jdx)
+                                         (prodn K d (fun k => chebT K (nth k jdx O) (nth k x (o0 K)))))
+  = oadd K c0 (bsum K d (fun i => bsum K (n - 1) (fun p => omul K (nth p (nth i cfs []) (o0 K))
+                                                                 (chebT K (S p) (nth i x (o0 K)))))).
+Proof. exact @anova_func_denote. Qed.
+
+(* ---------- non-vacuity ---------- *)
+(* the carrier executed by the correspondence satisfies the field hypotheses *)
+Example C13_Qc_laws : rng OQc /\ (forall a b : Qc, b <> o0 OQc -> omul OQc (odiv OQc a b) b = a) /\
+  (forall n, natT OQc (S n) <> o0 OQc).
+Proof. exact (conj OQc_rng (conj Qc_div_law Qc_nat_nz)). Qed.
+(* the oracle contracts are met by concrete routines *)
+Example C13_skel_contract : forall {T} (K : ops T), rng K -> forall num A,
+  let (U, V) := skel_id K num A in mc U = mr V /\ meq K (mmul K U V) A.
+Proof. exact @skel_id_contract. Qed.
+Example C13_trunc_contract : forall {T} (K : ops T), rng K -> forall idx shp (k : nat) (Y : list (core T)),
+  okY idx shp Y -> okY idx shp Y /\ get K Y idx = oadd K (get K Y idx) (o0 K).
+Proof. exact @trunc_id_contract. Qed.
+Example C13_split_contract : forall {T} (K : ops T), rng K -> forall d (v : T),
+  let (s, w) := (v, o1 K) in omul K s (tpow K w d) = v.
+Proof. exact @split_id_contract. Qed.
+(* a concrete data set (2 x 3 grid, one duplicate): statistics, calc, KeyError, shape, ranks, one entry *)
+Example C13_stats_example : exists M, ANOVA OQc exI exy 1 = Ok M /\
+  a_dom M = [[0; 4]; [5; 7; 9]]%Z /\ this (a_f0 M) = (29 # 7)%Q /\
+  map (map (fun q : Qc => this q)) (a_f1 M) = [[((-15) # 7)%Q; (45 # 28)%Q]; [((-23) # 14)%Q; ((-9) # 14)%Q; (32 # 21)%Q]] /\
+  rmap (fun q : Qc => this q) (calc OQc M [4; 7]%Z) = Ok ((143 # 28)%Q) /\
+  rmap (fun q : Qc => this q) (calc OQc M [4; 6]%Z) = Err OtherError /\
+  shape (cores_1 OQc M 3 (o0 OQc) (fun _ _ _ _ => o0 OQc)) = [2; 3] /\
+  ranks (cores_1 OQc M 3 (o0 OQc) (fun _ _ _ _ => o0 OQc)) = [1; 3; 1] /\
+  this (get OQc (cores_1 OQc M 3 (o0 OQc) (fun _ _ _ _ => o0 OQc)) [1; 1]) = (143 # 28)%Q.
+Proof. exact ex_stats. Qed.
+Example C13_pairs_example : pairs 4 = [(0, 1); (0, 2); (0, 3); (1, 2); (1, 3); (2, 3)] /\ pair_num_nat 4 1 3 = 4.
+Proof. split; reflexivity. Qed.
